@@ -38,6 +38,7 @@ def check(chk):
     chk.rule('C42.change', 'new host -> add_host(..., signal=True, refresh_nodes=False) and flag; existing host -> _update_location_info evaluated unconditionally and or-ed into the flag; vanished host -> remove_host and flag')
     chk.rule('C42.endpoint', 'a peer row is identified by its own address and port: the factory falls back to the configured port only when the row has none')
     chk.rule('C42.rebuild', 'rebuild_token_map(partitioner, token_map) exactly under `partitioner and should_rebuild_token_map`')
+    chk.rule('C42.live', '_update_location_info calls profile_manager.on_up only for a host that is not marked down (host.is_up is not False)')
     chk.rule('C42.location', '_update_location_info: unchanged -> False; changed -> profile_manager.on_down, set_location_info, profile_manager.on_up, True')
     chk.rule('C42.atomic', 'Metadata.add_or_return_host / remove_host are test-and-set under _hosts_lock; Cluster.add_host / remove_host signal only on change')
     cl = chk.repo.mod(CLUSTER)
@@ -125,10 +126,29 @@ def check(chk):
     chk.judge('token_map[host] = tokens' in src(lp) and 'partitioner and tokens and self._token_meta_enabled' in src(lp), 'C42.rebuild', lp, 'peer tokens collected per host when token metadata is enabled', 'token collection changed')
     # location
     ul_ = cl.func('ControlConnection._update_location_info')
-    body = [src(x) for x in ul_.body]
-    good = len(ul_.body) >= 5 and isinstance(ul_.body[0], ast.If) and src(ul_.body[0].test) == 'host.datacenter == datacenter and host.rack == rack' and src(ul_.body[0].body[0]) == 'return False' \
-        and body[-4:] == ['self._cluster.profile_manager.on_down(host)', 'host.set_location_info(datacenter, rack)', 'self._cluster.profile_manager.on_up(host)', 'return True']
-    chk.judge(good, 'C42.location', ul_, 'unchanged -> False; changed -> on_down, set_location_info, on_up, True', '_update_location_info changed: %s' % body[-4:])
+    from .. import sem as _sem
+    gu, flu = _sem.flow_of(ul_)
+
+    def _calls(text):
+        return [n for n in gu.stmt_nodes() if n.kind == 'stmt' and isinstance(n.ast, ast.Expr) and src(n.ast.value) == text]
+    dn, sl, up = _calls('self._cluster.profile_manager.on_down(host)'), _calls('host.set_location_info(datacenter, rack)'), _calls('self._cluster.profile_manager.on_up(host)')
+    if len(dn) != 1 or len(sl) != 1 or len(up) != 1:
+        raise AnalysisError('_update_location_info: on_down / set_location_info / on_up statements not recognised (%d/%d/%d)' % (len(dn), len(sl), len(up)))
+    unchanged = 'host.datacenter == datacenter and host.rack == rack'
+    rets = [n for n in gu.stmt_nodes() if n.kind == 'return']
+    rf_ = [n for n in rets if src(n.ast.value) == 'False']
+    rt_ = [n for n in rets if src(n.ast.value) == 'True']
+    same_known = lambda n, v: bool(list(flu.at(n))) and all(fa.knows('host.datacenter == datacenter') is v and fa.knows('host.rack == rack') is v for fa, _c in flu.at(n))
+    not_same = lambda n: bool(list(flu.at(n))) and all(fa.knows('host.datacenter == datacenter') is False or fa.knows('host.rack == rack') is False for fa, _c in flu.at(n))
+    good = len(rets) == len(rf_) + len(rt_) and rf_ and rt_ and all(same_known(n, True) for n in rf_) and all(not_same(n) for n in rt_ + dn + sl)
+    # order along every path: on_down, then set_location_info, then (when not down) on_up; changed paths all pass through the first two
+    order_ok = gu.dominates(dn[0], sl[0]) and gu.dominates(sl[0], up[0]) and all(gu.dominates(sl[0], n) for n in rt_)
+    chk.judge(bool(good) and order_ok, 'C42.location', ul_, 'unchanged -> False; changed -> on_down, set_location_info, on_up, True',
+              '_update_location_info changed: %s' % [src(x) for x in ul_.body][-4:])
+    # a host that is marked down is not handed back to the policies as live by a location change
+    live_only = bool(list(flu.at(up[0]))) and all(fa.knows('host.is_up is False') is False for fa, _c in flu.at(up[0]))
+    chk.judge(live_only, 'C42.live', up[0].ast, 'profile_manager.on_up(host) after a location change only when the host is not marked down',
+              'a datacenter / rack change reported for a node that is down calls on_up unconditionally: every policy files the down host as live again and plans contain it until the next down event')
     # atomic
     meta = chk.repo.mod(META)
     ar = meta.func('Metadata.add_or_return_host')
